@@ -262,6 +262,8 @@ pub struct Recv {
     pub inner_skip: bool,
     /// the only field of the newtype is typed `Foreign<T>` (no FromMeta impl, has Default)
     pub inner_foreign: bool,
+    /// `default` / `default = fn` on the only field of the newtype: its value when the item is absent
+    pub inner_default: Def,
 }
 
 impl Recv {
@@ -273,7 +275,7 @@ impl Recv {
                 ty: t.clone(),
                 multiple: false,
                 rename: None,
-                default: Def::None,
+                default: self.inner_default,
                 skip: self.inner_skip,
                 flatten: false,
                 with: self.inner_with,
@@ -616,6 +618,7 @@ impl<'a> Gen<'a> {
                         inner_post: Post::None,
             inner_skip: false,
             inner_foreign: false,
+            inner_default: Def::None,
                     });
                     let inner = self.meta_recv(depth + 1, false);
                     self.recvs[outer].shape = Shape::Newtype(Ty::Recv(inner));
@@ -691,6 +694,7 @@ impl<'a> Gen<'a> {
             inner_post: Post::None,
             inner_skip: false,
             inner_foreign: false,
+            inner_default: Def::None,
         });
         if self.rng.chance(2, 3) {
             let inner = match self.rng.below(4) {
@@ -727,6 +731,10 @@ impl<'a> Gen<'a> {
             if matches!(self.recvs[id].shape, Shape::Newtype(_)) && self.rng.chance(1, 8) {
                 self.recvs[id].inner_skip = true;
             }
+            // a default of its own on the only field: what the newtype is when its item is absent
+            if matches!(self.recvs[id].shape, Shape::Newtype(Ty::Sc(_))) && !self.recvs[id].inner_skip && self.rng.chance(1, 4) {
+                self.recvs[id].inner_default = if self.rng.coin() { Def::Trait } else { Def::Func };
+            }
             // `skip` on the only field of a newtype over a type that meets what the documentation asks of
             // a skipped field (Default) and nothing more (compile-only profile: see known finding K2)
             if self.profile.skip_newtype_foreign && matches!(self.recvs[id].shape, Shape::Newtype(Ty::Sc(_))) && self.rng.chance(1, 4) {
@@ -735,6 +743,7 @@ impl<'a> Gen<'a> {
                 r.inner_foreign = true;
                 r.inner_with = With::None;
                 r.inner_post = Post::None;
+                r.inner_default = Def::None;
                 r.post = Post::None;
             }
         }
@@ -770,6 +779,7 @@ impl<'a> Gen<'a> {
             inner_post: Post::None,
             inner_skip: false,
             inner_foreign: false,
+            inner_default: Def::None,
         });
         let opts = self.profile.options;
         let mut r = self.recvs[id].clone();
@@ -953,6 +963,7 @@ impl<'a> Gen<'a> {
             inner_post: Post::None,
             inner_skip: false,
             inner_foreign: false,
+            inner_default: Def::None,
         };
         self.recvs.push(r.clone());
         if self.profile.options && self.rng.chance(1, 3) {
@@ -1045,6 +1056,7 @@ impl<'a> Gen<'a> {
                 inner_post: Post::None,
                 inner_skip: self.rng.chance(1, 4),
             inner_foreign: false,
+            inner_default: Def::None,
             });
             return outer;
         }
@@ -1156,6 +1168,7 @@ impl<'a> Gen<'a> {
             inner_post: Post::None,
             inner_skip: false,
             inner_foreign: false,
+            inner_default: Def::None,
         };
         self.recvs.push(r.clone());
         // one optional and one required scalar option keep body-layer mistakes expressible
